@@ -496,6 +496,97 @@ theorem C11_accept_once (w : World σ) (evs : List Ev) :
   simp only
   refine ⟨by rw [h1, h3], h2, by rw [h1]; exact List.nodup_range⟩
 
+/-! #### which address / conversation each queued session belongs to -/
+
+def createKey : Decision → Option (String × BitVec 32)
+  | .create a c _ _ => some (a, c)
+  | _ => none
+
+def keyOf (o : Sess σ) : String × BitVec 32 := (o.addr, o.conv)
+
+theorem C11_map_modifyAt {α β : Type} (xs : List α) (i : Nat) (f : α → α) (g : α → β) (hg : ∀ x, g (f x) = g x) :
+    (modifyAt xs i f).map g = xs.map g := by
+  induction xs generalizing i with
+  | nil => rfl
+  | cons x rest ih => cases i with
+    | zero => simp [modifyAt, hg]
+    | succ k => simp [modifyAt, ih]
+
+theorem C11_closeSess_keys (w : World σ) (l : Listener σ) (id : Nat) :
+    (closeSess w l id).objs.map keyOf = l.objs.map keyOf := by
+  unfold closeSess
+  split
+  · rfl
+  · split
+    · rfl
+    · exact C11_map_modifyAt _ _ _ _ (fun _ => rfl)
+
+theorem C11_tryCreate_keys (w : World σ) (l0 l1 : Listener σ) (p : Bytes) (a : String) (h : Hdr) (old : Option Nat)
+    (hk : l1.objs.map keyOf = l0.objs.map keyOf) :
+    (tryCreate w l1 p a h old).l.objs.map keyOf =
+      l0.objs.map keyOf ++ (createKey (tryCreate w l1 p a h old).dec).toList := by
+  unfold tryCreate
+  split
+  · simp [createKey, hk]
+  · split
+    · cases old <;> simp [createKey, hk]
+    · simp [createKey, hk, keyOf]
+
+/-- one datagram: the list of (address, conversation) of all session objects grows by exactly the
+key of the `create` decision, if the decision is one -/
+theorem C11_keys_step (w : World σ) (c : Cipher) (l : Listener σ) (data : Bytes) (a : String) :
+    (listenerInput w c l data a).l.objs.map keyOf =
+      l.objs.map keyOf ++ (createKey (listenerInput w c l data a).dec).toList := by
+  unfold listenerInput
+  split
+  · simp [createKey]
+  · simp [createKey]
+  · split
+    · simp [createKey]
+    · split
+      · simp [createKey]
+      · split
+        · exact C11_tryCreate_keys w l l _ a _ none rfl
+        · split
+          · simp [createKey]
+          · split
+            · simp only [createKey, Option.toList_none, List.append_nil]
+              exact C11_map_modifyAt _ _ _ _ (fun _ => rfl)
+            · split
+              · simp [createKey]
+              · exact C11_tryCreate_keys w l _ _ a _ _ (C11_closeSess_keys w l _)
+
+/-- **whose sessions are queued**: along every history from an empty listener, the i-th session ever
+put on the accept queue is session object i, and the (address, conversation id) of the objects, in
+order, are exactly those of the `create` decisions, in order.  Hence, for every address `a`, the
+number of sessions queued for `a` equals the number of conversation starts at `a` that found room,
+each queued exactly once (`C11_accept_once`), with the conversation id of its first frame. -/
+theorem C11_accept_once_keys (w : World σ) (evs : List Ev) :
+    let s := run w { l := Listener.empty, accepted := [], log := [] } evs
+    s.l.objs.map keyOf = s.log.filterMap createKey := by
+  have hinv : ∀ (evs : List Ev) (s : RunSt σ), s.l.objs.map keyOf = s.log.filterMap createKey →
+      (run w s evs).l.objs.map keyOf = (run w s evs).log.filterMap createKey := by
+    intro evs
+    induction evs with
+    | nil => intro s h; exact h
+    | cons e rest ih =>
+      intro s h
+      apply ih
+      cases e with
+      | input c data a =>
+        simp only [runStep, List.filterMap_append]
+        rw [C11_keys_step, h]
+        cases hd : createKey (listenerInput w c s.l data a).dec <;> simp [hd]
+      | accept =>
+        simp only [runStep, SessIn.accept]
+        cases hq : s.l.accepts with
+        | nil => simpa using h
+        | cons id rest => simpa using h
+      | close id =>
+        simp only [runStep, userClose]
+        rw [C11_closeSess_keys]; exact h
+  exact hinv evs _ (by simp [Listener.empty])
+
 /-- a decision is `create` exactly when the datagram is a conversation start that finds room:
 it passes the gate, carries a readable conversation id, and either no session is mapped at its
 address or the mapped one has another id and the frame is a reset (sn = 0 / OOB) -/
